@@ -148,7 +148,7 @@ def prop (c : Case) : Option String := Id.run do
         "Matrix Market comment line with a token of 64 or more characters"
       else if fmt == "mm" && c.p "hdr" == "compat" then
         "complex Matrix Market data under the header 'real' (what the pinned [cz]readMM accept)"
-      else if c.p "sym" == "1" && c.p "diag" ≠ "all" && st == "memerr" then
+      else if c.p "sym" == "1" && c.p "diag" ≠ "all" && (st == "memerr" || st == "abort") then
         "symmetric file without all diagonal entries"
       else "well-formed file"
     return some s!"{trait}: {what} [{encOf c} valfmt={c.p "valfmt"}]"
